@@ -13,6 +13,7 @@ package main
 //     operation must produce when it succeeds; an error must leave resource and value untouched.
 
 import (
+	"regexp"
 	"sync"
 	"errors"
 	"fmt"
@@ -450,7 +451,8 @@ func runC18(c *Ctx) {
 	for _, hm := range []struct{ tn, js string }{
 		{"Patient", `{"resourceType":"Patient","id":"h1","multipleBirthInteger":2,"_multipleBirthInteger":{"id":"mb","extension":[{"url":"http://example.org/x","valueString":"kept?"}]},
 		  "telecom":[{"value":"111","rank":1,"_rank":{"id":"rank-1","extension":[{"url":"http://example.org/r","valueCode":"a"}]}},{"value":"222","rank":2,"_rank":{"id":"rank-2"}},{"value":"333","rank":3},{"value":"444"}],
-		  "name":[{"given":["Ada","Betty","Cleo","Dora"],"family":"F"},{"given":["Eve"]},{"given":["Fay","Gil","Hal"]}],"gender":"male","_gender":{"id":"g","extension":[{"url":"http://example.org/g","valueBoolean":true}]}}`},
+		  "name":[{"extension":[{"url":"http://example.org/n","valueString":"n0"}],"given":["Ada","Betty","Cleo","Dora"],"family":"F"},{"extension":[{"url":"http://example.org/n","valueString":"n1"},{"url":"http://example.org/m","valueString":"m1"}],"given":["Eve"]},{"extension":[{"url":"http://example.org/o","valueString":"o2"}],"given":["Fay","Gil","Hal"]}],
+		  "address":[{"extension":[{"url":"http://example.org/a","valueString":"a0"}],"city":"X"},{"extension":[{"url":"http://example.org/b","valueString":"b1"}],"city":"Y"},{"city":"Z","line":["l1","l2"]}],"gender":"male","_gender":{"id":"g","extension":[{"url":"http://example.org/g","valueBoolean":true}]}}`},
 		{"ImagingStudy", `{"resourceType":"ImagingStudy","id":"h2","status":"available","subject":{"reference":"Patient/h1"},"numberOfSeries":4,"_numberOfSeries":{"id":"nos","extension":[{"url":"http://example.org/n","valueInteger":9}]},
 		  "numberOfInstances":0,"_numberOfInstances":{"extension":[{"url":"http://example.org/i","valueString":"z"}]},"series":[{"uid":"1.2","modality":{"code":"CT"},"number":1,"_number":{"id":"n1"}},{"uid":"1.3","modality":{"code":"MR"},"number":2},{"uid":"1.4","modality":{"code":"US"}}]}`},
 	} {
@@ -460,6 +462,39 @@ func runC18(c *Ctx) {
 		for rep := 0; rep < 3; rep++ {
 			for _, op := range c18Ops(c, g, hm.tn, res) {
 				runPatchOp(c, res, op)
+			}
+		}
+		if hm.tn == "Patient" {
+			// extension(url) over several parents: the url on two parents, on the first parent only, on the last only, on none;
+			// a scalar child of a repeated parent that only a later parent has
+			ext := func(parent, u string) []patchOp {
+				steps := []jstep{{parent, -1}, {"extension", -1}}
+				path := "Patient." + parent + ".extension('" + u + "')"
+				return []patchOp{{kind: "delete", path: path, steps: steps, extURL: u},
+					{kind: "replace", path: path, steps: steps, extURL: u, value: &dtpb.Extension{Url: fhir.URI("http://new")}, vdesc: "right type (Extension)"}}
+			}
+			var ops []patchOp
+			for _, pu := range [][2]string{{"name", "http://example.org/n"}, {"name", "http://example.org/m"}, {"name", "http://example.org/o"}, {"address", "http://example.org/a"}, {"address", "http://example.org/b"}, {"address", "http://example.org/none"}, {"telecom", "http://example.org/none"}} {
+				ops = append(ops, ext(pu[0], pu[1])...)
+			}
+			for _, pc := range [][2]string{{"name", "family"}, {"address", "city"}, {"telecom", "rank"}, {"telecom", "value"}} {
+				steps := []jstep{{pc[0], -1}, {pc[1], -1}}
+				ops = append(ops, patchOp{kind: "delete", path: "Patient." + pc[0] + "." + pc[1], steps: steps})
+			}
+			second := mustResource(`{"resourceType":"Patient","id":"h3","name":[{"given":["A"]},{"given":["B","C"],"family":"OnlyHere","period":{"start":"2020"}}],"telecom":[{"value":"1"},{"value":"2","rank":2}]}`)
+			for _, op := range ops {
+				runPatchOp(c, res, op)
+			}
+			for _, pc := range [][2]string{{"name", "family"}, {"name", "period"}, {"telecom", "rank"}} {
+				steps := []jstep{{pc[0], -1}, {pc[1], -1}}
+				runPatchOp(c, second, patchOp{kind: "delete", path: "Patient." + pc[0] + "." + pc[1], steps: steps})
+				var v fhir.Base = fhir.String("New")
+				if pc[1] == "period" {
+					v = &dtpb.Period{}
+				} else if pc[1] == "rank" {
+					v = &dtpb.PositiveInt{Value: 9}
+				}
+				runPatchOp(c, second, patchOp{kind: "replace", path: "Patient." + pc[0] + "." + pc[1], steps: steps, value: v, vdesc: "right type"})
 			}
 		}
 	}
@@ -801,6 +836,14 @@ func runPatchOp(c *Ctx, orig fhir.Resource, op patchOp) {
 				c.Count("refused-feasible:" + op.kind + ":" + suffix + ":" + patchErrClass(operr, evalErr != nil))
 				// a single existing element selected through a filter is patchable like the element itself:
 				// delete / replace of it with a right-typed value is not refused
+				if (op.kind == "delete" || op.kind == "replace") && suffix == "plain" && errors.Is(operr, patch.ErrNotPatchable) {
+					// the same single element named with explicit indices: if that is patched, the refusal was not about the target
+					if alt := indexedAccepted(orig, op, value); alt != "" {
+						c.Law(false, "C18/refused", "an element the implementation patches when it is named with indices is patched when the same single element is named without them", in, "refused: "+operr.Error()+"; accepted as "+alt)
+					} else {
+						c.Count("refused-by-index-too:" + op.kind)
+					}
+				}
 				if (op.kind == "delete" || op.kind == "replace") && (suffix == ".where(true)" || suffix == ".where($this.exists())" || suffix == ".first()" || suffix == ".last()") {
 					// ... whenever the implementation patches that element when it is named by its index
 					// (targets it refuses by any route, e.g. extensions of primitive elements, are
@@ -1079,4 +1122,81 @@ func plainAccepted(orig fhir.Resource, op patchOp, suffix string, value fhir.Bas
 		return nil
 	})
 	return !pan && operr == nil
+}
+
+var plainPathRe = regexp.MustCompile(`^[A-Za-z]+(\.[A-Za-z]+(\[\d+\])?)*$`)
+
+// indexedAccepted looks for a spelling of the operation's path with explicit indices that selects the very same single
+// element and on which the operation succeeds (on copies of the resource); it returns that spelling, or "".
+func indexedAccepted(orig fhir.Resource, op patchOp, value fhir.Base) string {
+	if !plainPathRe.MatchString(op.path) {
+		return ""
+	}
+	segs := strings.Split(op.path, ".")
+	probe := proto.Clone(orig).(fhir.Resource)
+	target := func(path string, res fhir.Resource) (any, bool) {
+		e, err := fhirpath.Compile(path)
+		if err != nil {
+			return nil, false
+		}
+		r, err := e.Evaluate([]fhir.Resource{res})
+		if err != nil || len(r) != 1 {
+			return nil, false
+		}
+		return r[0], true
+	}
+	want, ok := target(op.path, probe)
+	if !ok {
+		return ""
+	}
+	var found string
+	var rec func(i int, acc []string, budget *int)
+	rec = func(i int, acc []string, budget *int) {
+		if found != "" || *budget <= 0 {
+			return
+		}
+		if i == len(segs) {
+			cand := strings.Join(acc, ".")
+			if cand == op.path {
+				return
+			}
+			*budget--
+			got, ok := target(cand, probe)
+			if !ok || got != want {
+				return
+			}
+			cp := proto.Clone(orig).(fhir.Resource)
+			pe, err := patch.Compile(cand)
+			if err != nil {
+				return
+			}
+			var operr error
+			_, pan, _ := safeErr(func() error {
+				if op.kind == "delete" {
+					operr = pe.Delete(cp)
+				} else {
+					var v fhir.Base
+					if value != nil {
+						v = proto.Clone(value).(fhir.Base)
+					}
+					operr = pe.Replace(cp, v)
+				}
+				return nil
+			})
+			if !pan && operr == nil {
+				found = cand
+			}
+			return
+		}
+		if i == 0 || strings.HasSuffix(segs[i], "]") {
+			rec(i+1, append(acc, segs[i]), budget)
+			return
+		}
+		for _, ix := range []string{"", "[0]", "[1]", "[2]", "[3]"} {
+			rec(i+1, append(append([]string{}, acc...), segs[i]+ix), budget)
+		}
+	}
+	budget := 400
+	rec(0, nil, &budget)
+	return found
 }
